@@ -270,7 +270,9 @@ fn fuzz_part(engine: &str, property: &str, runs: u64, ctx: &Ctx) -> Option<RunSt
     let jobs = (ctx.workers.max(1)).min(16);
     // (in fork mode -runs is the total over all jobs)
     let per_job = runs.max(1);
-    let out = std::process::Command::new("cargo")
+    let log_path = fuzz_dir.join("corpus-run").join(format!("{}-{}.log", property, engine));
+    let log = std::fs::File::create(&log_path).ok()?;
+    let mut child = std::process::Command::new("cargo")
         .args(["+nightly", "fuzz", "run", "--fuzz-dir"])
         .arg(&fuzz_dir)
         .args(["-s", "none", "fz_tape"])
@@ -286,9 +288,27 @@ fn fuzz_part(engine: &str, property: &str, runs: u64, ctx: &Ctx) -> Option<RunSt
         .env("H2V_PROPERTY", property)
         .env("CARGO_NET_OFFLINE", "true")
         .current_dir(&fuzz_dir)
-        .output()
+        .stdout(log.try_clone().ok()?)
+        .stderr(log)
+        .spawn()
         .ok()?;
-    let text = format!("{}\n{}", String::from_utf8_lossy(&out.stdout), String::from_utf8_lossy(&out.stderr));
+    // (the campaign takes minutes: keep the watchdog of this process informed)
+    let status = loop {
+        match child.try_wait() {
+            Ok(Some(st)) => break st,
+            Ok(None) => {
+                std::thread::sleep(std::time::Duration::from_millis(500));
+                runner::watchdog_tick();
+            }
+            Err(_) => return None,
+        }
+    };
+    struct Out {
+        status: std::process::ExitStatus,
+    }
+    let out = Out { status };
+    let text_raw = std::fs::read(&log_path).unwrap_or_default();
+    let text = String::from_utf8_lossy(&text_raw).into_owned();
     if text.contains("error: could not compile") || text.contains("no such command") || text.contains("error: toolchain") {
         eprintln!("fuzz: cannot build/run the libFuzzer target:\n{}", text.lines().rev().take(12).collect::<Vec<_>>().join("\n"));
         return None;
